@@ -60,6 +60,18 @@ CLAIMED = {
             "Generated-input search; every call line the model marks MUST_OK before the first line that is not MUST_OK must carry no diagnostic. Exploration.",
             "Same model as C07; only lines before the first definite error / don't-care line are asserted so recovery effects cannot interfere. Known finding: overloads sharing a keyword name.",
             "DESIGN.md §4 C08"),
+    "C19": ("property-based testing (Hypothesis: shipped configuration under file-order permutations; generated configurations split over files in random orders); metamorphic relation (equivalent config directories => identical output)",
+            "Generated-input search over (configuration, rendering A, rendering B, program); renderings differ only in file names/order and in how a class's declarations are distributed over files. Exploration.",
+            "Overloads of one method stay in one file in their declared order (their order is observable by design).",
+            "DESIGN.md §4 C19"),
+    "C20": ("property-based testing (Hypothesis: corpus and generated programs x generated extra config classes incl. short-name collisions in foreign frames); metamorphic relation (adding unmentioned classes changes nothing)",
+            "Generated-input search over (program, extra config files loaded first or last); output with and without the extras must be identical. Exploration.",
+            "Precondition checked on tokens: the program mentions no added class name except in the stated same-short-name/other-frame case.",
+            "DESIGN.md §4 C20"),
+    "C21": ("property-based testing (Hypothesis: abstract generated configurations rendered under two different subsets of the documented notation equivalences x call programs); metamorphic relation (equivalent notations => identical output)",
+            "Generated-input search over (abstract configuration, notation subsets A != B, program); plain, -i, --suggest and --llm-define outputs must be identical. Exploration.",
+            "Each flip is one equivalence the property lists; union member order is kept.",
+            "DESIGN.md §4 C21"),
 }
 
 PENDING_REASON = "check not built yet in this round (planned in DESIGN.md §3.11); no claim is made"
